@@ -424,6 +424,15 @@ func replayRun(c replayCase) *pbt.Fail {
 	for _, p := range an.Parties {
 		foreign = append(foreign, p.Sent...)
 	}
+	// plus the abort notice each party of A would send if its session failed (round number 0, A's session tag)
+	seenFrom := map[string]bool{}
+	for _, m := range append([]*sim.Msg{}, foreign...) {
+		if m.RoundNumber == 0 || seenFrom[string(m.From)] {
+			continue
+		}
+		seenFrom[string(m.From)] = true
+		foreign = append(foreign, &sim.Msg{SSID: append([]byte{}, m.SSID...), From: m.From, Protocol: m.Protocol, Data: []byte("aborted by user")})
+	}
 	// B's baseline
 	bn, f := runSession(c.Y, c.Seed, nil)
 	if f != nil {
@@ -500,8 +509,18 @@ func TestReplayCheap(t *testing.T) {
 func TestReplayCMP(t *testing.T) {
 	rapid.Check(t, func(rt *rapid.T) {
 		if c, ok := genReplay(rt, []string{proto.CMPSign, proto.CMPPresign, proto.CMPPresignOnline, proto.CMPPresignFull}); ok {
-			c.X.N, c.Y.N = 2, 2
-			c.X.T, c.Y.T = 1, 1
+			if c.Differ == "participants" {
+				// another signer subset only exists when there are more shareholders than signers: 3 shareholders, the two
+				// sessions are run by two different pairs (forcing n=2 here would make the two "different" sets coincide)
+				c.X.N, c.Y.N = 3, 3
+				c.X.T, c.Y.T = 1, 1
+				c.Y.Signers = []int{0, 1}
+				c.X.Signers = []int{0, 2}
+			} else {
+				c.X.N, c.Y.N = 2, 2
+				c.X.T, c.Y.T = 1, 1
+				c.X.Signers, c.Y.Signers = nil, nil
+			}
 			replayProp.One(rt, c)
 		}
 	})
